@@ -86,18 +86,34 @@ def main(argv=None):
                 for e in r.rlimit:
                     undecided.append(f"verus[{vf.name}] resource limit in {e['section']}: {e['message']}")
             # ------------------------------------------------------------ Kani
-            if unit.kani is not None and unit.kani.harnesses:
-                hs = [h for h in unit.kani.harnesses if tier == "thorough" or getattr(h, "tier", "quick") != "thorough"]
+            specs = unit.kani if isinstance(unit.kani, list) else ([unit.kani] if unit.kani is not None else [])
+            specs = [sp for sp in specs if sp is not None and sp.harnesses]
+            all_harnesses = [h for sp in specs for h in sp.harnesses]
+            for sp in specs:
+                hs = [h for h in sp.harnesses if tier == "thorough" or getattr(h, "tier", "quick") != "thorough"]
+                if not hs:
+                    continue
+                kr = None
                 try:
-                    kani_result = krun.run(unit.kani, hs)
+                    kr = krun.run(sp, hs)
                 except rsx.LostAnchor as e:
                     undecided.append(f"lost anchor (kani): {e}")
-                if kani_result is not None:
-                    if kani_result.build_error:
-                        undecided.append("kani: build/tool error: " + _first_error(kani_result.build_error))
-                    tag = getattr(unit.kani, "tag", None)
+                if kr is not None:
+                    if kani_result is None:
+                        kani_result = kr
+                    else:
+                        kani_result.harnesses.update(kr.harnesses)
+                        kani_result.wall_s += kr.wall_s
+                        kani_result.cmd += " ; " + kr.cmd
+                        kani_result.build_error = kani_result.build_error or kr.build_error
+                    kani_result_cur = kr
+                    unit_kani_cur = sp
+                if kr is not None:
+                    if kr.build_error:
+                        undecided.append("kani: build/tool error: " + _first_error(kr.build_error))
+                    tag = getattr(sp, "tag", None)
                     for h in hs:
-                        hr = kani_result.harnesses[h.name]
+                        hr = kr.harnesses[h.name]
                         if h.ignore and hr.status == "failed":
                             # failed checks declared (with a justification) as artefacts of the tool's modelling
                             keep = [c for c in hr.failed_checks if not any(re.search(rx, c["desc"] + " @ " + c.get("fn", "")) for rx, _ in h.ignore)]
@@ -206,8 +222,15 @@ def _takes_tier(fn) -> bool:
     return len(inspect.signature(fn).parameters) >= 2
 
 
+def _all_harnesses(unit):
+    if unit is None or unit.kani is None:
+        return []
+    specs = unit.kani if isinstance(unit.kani, list) else [unit.kani]
+    return [h for sp in specs if sp is not None for h in sp.harnesses]
+
+
 def _hkind(unit: Unit, name: str) -> str:
-    for h in unit.kani.harnesses if unit and unit.kani else []:
+    for h in _all_harnesses(unit):
         if h.name == name:
             return h.kind
     return "?"
@@ -337,7 +360,7 @@ def _evidence(pid, tier, seed, unit, verus_results, kani_result, violations, und
     kani_info = []
     if kani_result is not None:
         for name, hr in kani_result.harnesses.items():
-            h = next((x for x in unit.kani.harnesses if x.name == name), None)
+            h = next((x for x in _all_harnesses(unit) if x.name == name), None)
             rec = {"harness": name, "kind": h.kind if h else "?", "bound": h.bound if h else "", "covers": h.covers if h else "",
                    "status": hr.status, "checks": hr.checks_total, "failed": hr.checks_failed,
                    "unreachable": hr.checks_unreachable, "cover_props": hr.covers, "solver_s": round(hr.time_s, 2)}
@@ -350,8 +373,9 @@ def _evidence(pid, tier, seed, unit, verus_results, kani_result, violations, und
                 fn_contract.append({"fn": h.covers, "origin": "compiled crate", "backend": "kani/cbmc complete (loop-free or constant loops, full input domain)"})
             else:
                 bounded_units.append(rec)
-        for st in unit.kani.stubs_note:
-            assumptions.append("kani stub/patch (trusted): " + st)
+        for sp in (unit.kani if isinstance(unit.kani, list) else [unit.kani]):
+            for st in (sp.stubs_note if sp is not None else []):
+                assumptions.append("kani stub/patch (trusted): " + st)
     if unit is not None:
         assumptions += unit.assumptions
     assumptions += [
@@ -366,17 +390,29 @@ def _evidence(pid, tier, seed, unit, verus_results, kani_result, violations, und
                     samples.append(f"verus contract on {s.name} <- {s.origin}")
     for k in kani_info:
         samples.append(f"kani {k['kind']} harness {k['harness']}: {k['status']} ({k['checks']} checks)")
+    # the level is the one claimed for this property in MANIFEST.json ("proof" where Verus / complete Kani
+    # obligations carry the claim, "other" where only bounded stand-ins exist)
+    level = "proof"
+    try:
+        man = json.load(open(os.path.join(VERIF, "MANIFEST.json")))
+        level = next(c["level_claimed"]["category"] for c in man["checks"] if c["property_id"] == pid)
+    except Exception:
+        pass
     ev = {
         "property_id": pid,
         "tier": tier,
         "seed": seed,
-        "level": "proof",
+        "level": level,
         "coverage": {
             "obligations": obligations,
             "discharged": discharged,
             "checker_cmd": "; ".join([r.cmd.replace(os.path.dirname(r.file), "<scratch>") for r in verus_results][:1] +
                                      ([kani_result.cmd[:400]] if kani_result else [])),
             "trusted_base": sorted(set(assumptions)),
+            "evaluations": obligations + len(bounded_units),
+            "distinct_nontrivial": discharged + sum(1 for b in bounded_units if b["status"] == "success"),
+            "rule": ("one evaluation = one Verus function-level query or one Kani harness (complete or bounded); it is distinct and non-trivial "
+                     "when it was discharged / passed with every kani::cover! satisfied"),
             "explanation": ("obligations = Verus function-level queries (each covering every requires/ensures/invariant/overflow "
                             "obligation of that function) of the non-canary files + Kani COMPLETE harnesses; bounded Kani harnesses are "
                             "listed under bounded_units and are NOT counted."),
